@@ -642,8 +642,38 @@ func runC15LiveJoin(c *Ctx, reg *memReg) {
 	up := firstFrames(px.toTarget.Bytes(), 3)
 	down := firstFrames(px.toClient.Bytes(), 3)
 	px.mu.Unlock()
+	// ---- type flaw under the name of the LIVE peer: connection.Join must refuse the foreign id ----
+	if len(up) > 0 && len(down) > 0 {
+		h1, o1 := up[0].(handshake.MessageHello)
+		h2, o2 := down[0].(handshake.MessageHello)
+		if o1 && o2 {
+			c4, err := net.Dial("tcp4", fmt.Sprintf("127.0.0.1:%d", yport))
+			if err == nil {
+				sc := &scriptConn{}
+				handshake.VerifWriteMessage(sc, handshake.MessageJoin{Node: x.Name(), ConnectionID: h2.Salt, Salt: h1.Digest, Digest: h2.Digest})
+				c4.Write(sc.wrote.Bytes())
+				v, _, rerr := handshake.VerifReadMessage(c4, 2*time.Second, nil)
+				_, acc := v.(handshake.MessageAccept)
+				stays := false
+				if acc && rerr == nil {
+					c4.SetReadDeadline(time.Now().Add(1500 * time.Millisecond))
+					var one [1]byte
+					_, e := c4.Read(one[:])
+					ne, isNet := e.(net.Error)
+					stays = e == nil || (isNet && ne.Timeout())
+				}
+				c4.Close()
+				r.Case("nodes-live-join-typeflaw-live-name", true)
+				r.Count(fmt.Sprintf("nodes.live-join.typeflaw-live-name.link-stays-%v", stays))
+				if stays {
+					r.Violation("C15/join-foreign-id-joined", "a forged Join naming a live peer but carrying a foreign connection id was given a link in that peer's connection", nil)
+				}
+			}
+		}
+	}
 	// ---- D24 proper: a Join recorded for the LIVE connection, replayed by someone without the cookie ----
 	var connID string
+	var recordedJoin []byte
 	for _, m := range down {
 		if am, ok := m.(handshake.MessageAccept); ok {
 			connID = am.ID // travels in clear in the main handshake
@@ -659,6 +689,7 @@ func runC15LiveJoin(c *Ctx, reg *memReg) {
 			recorded := append([]byte(nil), rc.rec.Bytes()...)
 			c1.Close()
 			if jerr == nil && len(recorded) > 0 {
+				recordedJoin = recorded
 				replayJoin := func(b []byte) (accepted, stays bool) {
 					c2, err := net.Dial("tcp4", fmt.Sprintf("127.0.0.1:%d", yport))
 					if err != nil {
@@ -746,10 +777,34 @@ func runC15LiveJoin(c *Ctx, reg *memReg) {
 	r.Count(fmt.Sprintf("nodes.live-join.typeflaw.accepted-%v.listed-%v", accepted && rerr == nil, listed))
 	if accepted && rerr == nil {
 		what := "a raw TCP client that only eavesdropped one main handshake sent Join{ConnectionID: acceptor salt, Salt: initiator digest, Digest: acceptor Hello digest} and received the Accept reply"
-		if listed {
-			what += fmt.Sprintf("; the victim node now lists a connection with %s (name chosen by the intruder, flags all zero)", evil)
+		r.Violation("C15/join-typeflaw", what, map[string]interface{}{"join": fmt.Sprintf("%+v", join)})
+	}
+	// Model.NodeAccept / C15_join_node_level: a Join result never registers a connection
+	if listed {
+		r.Violation("C15/join-registers-connection", fmt.Sprintf("after a forged Join the victim node lists a connection with %s (name chosen by the intruder)", evil), map[string]interface{}{"join": fmt.Sprintf("%+v", join)})
+	}
+	// … and the recorded Join of the connection that has meanwhile been closed is not joined to anything any more
+	if len(recordedJoin) > 0 {
+		c3, err := net.Dial("tcp4", fmt.Sprintf("127.0.0.1:%d", yport))
+		if err == nil {
+			defer c3.Close()
+			c3.Write(recordedJoin)
+			v, _, rerr := handshake.VerifReadMessage(c3, 2*time.Second, nil)
+			_, acc := v.(handshake.MessageAccept)
+			stays := false
+			if acc && rerr == nil {
+				c3.SetReadDeadline(time.Now().Add(1500 * time.Millisecond))
+				var one [1]byte
+				_, e := c3.Read(one[:])
+				ne, isNet := e.(net.Error)
+				stays = e == nil || (isNet && ne.Timeout())
+			}
+			r.Case("nodes-live-join-after-disconnect", true)
+			r.Count(fmt.Sprintf("nodes.live-join.after-disconnect.link-stays-%v", stays))
+			if stays {
+				r.Violation("C15/join-after-disconnect", "a recorded Join replayed after its connection was closed is still given a live link", nil)
+			}
 		}
-		r.Violation("C15/join-typeflaw", what, map[string]interface{}{"join": fmt.Sprintf("%+v", join), "listed_as_connected": listed})
 	}
 	_ = io.EOF
 }
